@@ -91,6 +91,16 @@ def judge(target, text, data, decoded):
     """-> ("ok"|"unverifiable"|"fail", detail message, structured diff)"""
     if decoded is None:
         return "unverifiable", "undecodable", None
+    need = sum(n for _, n in decoded)
+    if need != len(data):
+        # only vf/m68kdec.py reports an instruction that runs past the end of the emitted bytes
+        diff = ("length", len(data), need)
+        return (
+            "fail",
+            "%s %r encodes to %s (%d bytes), but decoding it as %r needs %d bytes"
+            % (target, text, data.hex(), len(data), "; ".join(t.replace("\t", " ") for t, _ in decoded), need),
+            diff,
+        )
     a = L.norm_ppci(target, text)
     if a is None:
         return "unverifiable", "ppci text not interpreted", None
@@ -108,6 +118,20 @@ def judge(target, text, data, decoded):
         % (target, text, data.hex(), "; ".join(t.replace("\t", " ") for t, _ in decoded), L.describe_diff(diff)),
         diff,
     )
+
+
+def _m68k_crosscheck(data, dec):
+    from .. import m68kdec
+
+    own = m68kdec.decode(data)
+    if own is None:
+        return "rejects what llvm-mc decodes"
+    a, b = L.norm_ref("m68k", dec), L.norm_ref("m68k", own)
+    if a is None or b is None:
+        return "not compared with llvm-mc"
+    if [n for _, n in own] != [n for _, n in dec] or L.compare(a, b, strict=True) is not None:
+        return "DISAGREES with llvm-mc"
+    return "agrees with llvm-mc"
 
 
 def evaluate(desc):
@@ -467,10 +491,16 @@ def _worker(arg):
             seen.add(key)
             cases.append((desc, text, data))
     stats.hist["%s/register sweep instances" % target] += len(cases) - nrandom
-    decoded = L.reference_decode(target, [c[2] for c in cases]) if cases else []
+    sources = []
+    decoded = L.reference_decode(target, [c[2] for c in cases], sources=sources) if cases else []
     per_class = collections.Counter()
-    for (desc, text, data), dec in zip(cases, decoded):
+    for (desc, text, data), dec, src in zip(cases, decoded, sources):
         st, detail, diff = judge(target, text, data, dec)
+        if src == "own" and dec is not None:
+            stats.hist["%s/decoded by the own fallback decoder" % target] += 1
+        elif target == "m68k" and dec is not None:
+            # cross-check of vf/m68kdec.py on everything llvm-mc decodes as well
+            stats.hist["m68k/own decoder %s" % _m68k_crosscheck(data, dec)] += 1
         nt = G.has_operands(desc)
         stats.case(G.key_of(desc), nt and st != "unverifiable", {"case": desc, "text": text, "bytes": data.hex()} if st == "ok" and nt else None,
                    classes=("%s/%s" % (target, st if st != "unverifiable" else "unverifiable:" + detail),))
